@@ -253,10 +253,10 @@ fn f_one<F: Fl, A: FArith<F>>(name: &str, a: &mut A, case: &FCase, wide: bool, p
 
 fn check_f(case: &FCase, p: &mut Probe) -> Check {
     macro_rules! all64 {
-        ($($t:ident),*) => { $( f_one::<f64, $t>(stringify!($t), &mut <$t>::new(), case, false, p)?; p.inner += 1; )* };
+        ($($t:ident),*) => { $( f_one::<f64, $t>(stringify!($t), &mut super::impls::mk(<$t>::new, case.tag & 0x100 != 0), case, false, p)?; p.inner += 1; )* };
     }
     macro_rules! all32 {
-        ($($t:ident),*) => { $( f_one::<f32, $t>(stringify!($t), &mut <$t>::new(), case, false, p)?; p.inner += 1; )* };
+        ($($t:ident),*) => { $( f_one::<f32, $t>(stringify!($t), &mut super::impls::mk(<$t>::new, case.tag & 0x100 != 0), case, false, p)?; p.inner += 1; )* };
     }
     crate::with_f64_types!(all64);
     crate::with_f32_types!(all32);
@@ -389,7 +389,7 @@ fn check_i8(case: &I8Case, p: &mut Probe) -> Check {
     let sources = sources_for(case.vals.len(), case.tag);
     macro_rules! all {
         ($($t:ident),*) => { $( {
-            let mut a = <$t>::new();
+            let mut a = super::impls::mk(<$t>::new, case.tag & 0x100 != 0);
             if case.warm.len() >= 2 {
                 let _ = run_rule(stringify!($t), &mut a, &case.warm, &sources_for(case.warm.len(), case.tag ^ 0x5a5a))?;
             }
@@ -431,7 +431,7 @@ fn check_block(b: &Block, p: &mut Probe) -> Check {
         ($($t:ident),*) => {
             $(
                 {
-                    let mut a = <$t>::new();
+                    let mut a = super::impls::mk(<$t>::new, b.first & 1 == 1);
                     if b.degree == 2 {
                         for y in -127i8..=127 {
                             i8_check_vector(stringify!($t), &mut a, &[b.first, y], &[4, 9], p)?;
@@ -507,14 +507,14 @@ pub fn property() -> Property {
             }),
             Box::new(EnumSub {
                 name: "i8-exhaustive",
-                rule: "the sixteen 8-bit types, exhaustively: all 255^2 vectors of degree 2, and degree 3 with the third value from a 16-value set incl. 0, +-1, 99/100/101, +-127 (quick) or all 255^3 vectors (thorough); one case = one block with the first value fixed, inner = rule evaluations; oracle as in i8-random (look-up table read through min*(a,b) at every distance |a|-|b|)",
+                rule: "the sixteen 8-bit types (objects built by new() or Default::default(), alternating), exhaustively: all 255^2 vectors of degree 2, and degree 3 with the third value from a 16-value set incl. 0, +-1, 99/100/101, +-127 (quick) or all 255^3 vectors (thorough); one case = one block with the first value fixed, inner = rule evaluations; oracle as in i8-random (look-up table read through min*(a,b) at every distance |a|-|b|)",
                 cases: blocks,
                 check: check_block,
                 exhaustive: true,
             }),
             Box::new(Sub {
                 name: "i8-random",
-                rule: "the sixteen 8-bit types, degree 3..=30 (in 60 % of the cases after an unrelated check node on the same arithmetic object), values in [-127,127] (uniform; magnitudes 90..127 and 100..127 so that partial hard-limiting triggers; small; tied minima), distinct non-monotone source tags; oracle per emitted message: exactly one per neighbour with dest = that neighbour's source; never -128; |y - 8 f(x/8)| <= 0.5 L with f the own real-valued min*-approximation (sequential fold) resp. exact box-plus (A-Min*: others for the least reliable neighbour, all inputs for every other neighbour) and L the table look-ups on the path; magnitude <= smallest other magnitude; sign = product of the other signs when the reference exceeds the tolerance; partial-hard-limit types: +-127 only if the reference >= 100 - tol, otherwise |y| < 100; non-trivial = degree >= 3 and reference >= 1 unit",
+                rule: "the sixteen 8-bit types (objects built by new() or Default::default(), drawn per case), degree 3..=30 (in 60 % of the cases after an unrelated check node on the same arithmetic object), values in [-127,127] (uniform; magnitudes 90..127 and 100..127 so that partial hard-limiting triggers; small; tied minima), distinct non-monotone source tags; oracle per emitted message: exactly one per neighbour with dest = that neighbour's source; never -128; |y - 8 f(x/8)| <= 0.5 L with f the own real-valued min*-approximation (sequential fold) resp. exact box-plus (A-Min*: others for the least reliable neighbour, all inputs for every other neighbour) and L the table look-ups on the path; magnitude <= smallest other magnitude; sign = product of the other signs when the reference exceeds the tolerance; partial-hard-limit types: +-127 only if the reference >= 100 - tol, otherwise |y| < 100; non-trivial = degree >= 3 and reference >= 1 unit",
                 cases: |t| t.pick(300_000, 10_000_000),
                 strategy: i8_strategy,
                 check: check_i8,
